@@ -182,3 +182,109 @@ def c03_dump(tier, rng):
                 "obligation": "C03.gff_dump", "inputs": {"seed": base + k}, "observed": p[:3], "required": "consistent GTF",
                 "replay_call": "contracts.c_models:replay_dump"}]}
     return {"cases": n, "bound": "%d random dumps" % n, "violations": [], "samples": [{"seed": base}]}
+
+
+# ---- TranscriptToGeneJoiner: a reference gene is never merged away (its transcripts keep their gene record) --------------------------
+G = "src/graph_based_model_construction.py:"
+record("GeneInfoJ", {"gene_strands": "dict[str,str]"})
+record("TranscriptToGeneJoiner", {"gene_info": "rec:GeneInfoJ", "scores": "dict[tuple[str,str],real]"})
+CLASS_HOME["TranscriptToGeneJoiner"] = "src/graph_based_model_construction.py"
+
+
+@spec("dict[tuple[str,str],real], dict[str,str] -> bool")
+def pairs_ok(scores, ref):
+    # a scored pair never consists of two reference genes, nor of a gene with itself
+    return all(not (k[0] in ref and k[1] in ref) and k[0] != k[1] for k in scores)
+
+
+contract(G + "TranscriptToGeneJoiner.count_scores", {"self": "rec:TranscriptToGeneJoiner"}, returns="none", trusted=True, props=[],
+         modifies=["self.scores"], ensures=["pairs_ok(self.scores, self.gene_info.gene_strands)"], native=False,
+         note="nested loops over dict keys; assumed: pairs of two reference genes are skipped (checked natively by C03.gene_joiner)")
+contract(G + "TranscriptToGeneJoiner.merge_genes", {"self": "rec:TranscriptToGeneJoiner", "gene1": "str", "gene2": "str"},
+         returns="none", trusted=True, props=[], modifies=["self.scores"], native=False,
+         # the gene that disappears must not be a reference gene: reference transcripts keep their reference gene record
+         requires=["gene2 not in self.gene_info.gene_strands", "gene1 != gene2"],
+         ensures=["all(k in old(self.scores) for k in self.scores)", "len(self.scores) < len(old(self.scores))"],
+         note="dict/set bookkeeping; assumed: only pairs not involving gene2 survive")
+contract(G + "TranscriptToGeneJoiner.join_transcripts", {"self": "rec:TranscriptToGeneJoiner"}, returns="none", props=["C03", "C04"],
+         modifies=["self.scores"], native=False,
+         slice={"from": "self.count_scores()", "to": "transcript_to_new_gene_id = {}"},
+         ensures=["True"],
+         loops={0: {"inv": ["pairs_ok(self.scores, self.gene_info.gene_strands)"], "locals": {"best_gene_pair": "tuple[str,str]"}}})
+
+
+def _joiner_case(seed):
+    import random
+    rng = random.Random(seed)
+    gi_mod = native.repo_import("src/gene_info.py")
+    gm = native.repo_import("src/graph_based_model_construction.py")
+    ref_ids = rng.sample(["ENSG0001", "zfp36", "sox2", "Abc1", "ref_gene1", "novel_gene_chr1_5"], rng.randint(1, 2))
+    models = []
+    p = 1000
+    ref_models = []
+    for g in ref_ids:
+        strand = rng.choice("+-")
+        ex = []
+        q = p
+        for _ in range(rng.randint(2, 4)):
+            a = q + rng.randint(100, 300); b = a + rng.randint(50, 150); ex.append((a, b)); q = b
+        ref_models.append(gi_mod.TranscriptModel("chr1", strand, g + ".t1", g, ex, gi_mod.TranscriptModelType.known))
+        p = q + (rng.randint(-400, 100) if rng.random() < .5 else rng.randint(500, 900))
+    ginfo = gi_mod.GeneInfo.from_models(ref_models, 0)
+    # what the gffutils-backed constructor additionally provides for reference genes
+    ginfo.gene_strands = {m.gene_id: m.strand for m in ref_models}
+    ginfo.gene_regions = {m.gene_id: (m.exon_blocks[0][0], m.exon_blocks[-1][1]) for m in ref_models}
+    storage = []
+    for m in ref_models:
+        if rng.random() < .8:
+            storage.append(gi_mod.TranscriptModel("chr1", m.strand, m.transcript_id, m.gene_id, list(m.exon_blocks), gi_mod.TranscriptModelType.known))
+    for k in range(rng.randint(1, 4)):
+        base = rng.choice(ref_models)
+        shift = rng.choice([0, 0, 37, 2000])
+        ex = [(a + shift + (11 if i else 0), b + shift + (13 if i < len(base.exon_blocks) - 1 else 0)) for i, (a, b) in enumerate(base.exon_blocks)]
+        storage.append(gi_mod.TranscriptModel("chr1", base.strand if rng.random() < .8 else ("+" if base.strand == "-" else "-"),
+                                              "transcript%d.chr1.nnic" % k, "novel_gene_chr1_%d" % rng.choice([2, 12, 30 + k]), ex,
+                                              gi_mod.TranscriptModelType.novel_not_in_catalog))
+    # novel models of one novel gene must share the strand (constructor's precondition)
+    seen = {}
+    for m in storage:
+        if m.transcript_type != gi_mod.TranscriptModelType.known:
+            if m.gene_id in seen and seen[m.gene_id] != m.strand:
+                m.gene_id = m.gene_id + "9"
+            seen.setdefault(m.gene_id, m.strand)
+    before = {m.transcript_id: m.gene_id for m in storage}
+    j = gm.TranscriptToGeneJoiner(storage, ginfo)
+    out = j.join_transcripts()
+    problems = []
+    for m in out:
+        if m.transcript_type == gi_mod.TranscriptModelType.known and m.gene_id != ginfo.gene_id_map[m.transcript_id]:
+            problems.append("reference transcript %s is reported under gene %s, its reference gene is %s"
+                            % (m.transcript_id, m.gene_id, ginfo.gene_id_map[m.transcript_id]))
+    if len({m.transcript_id for m in out}) != len(before):
+        problems.append("models lost or duplicated")
+    return problems
+
+
+def replay_joiner(d):
+    p = _joiner_case(d["inputs"]["seed"])
+    return (not p), "seed %s: %s" % (d["inputs"]["seed"], p or "reference transcripts keep their genes")
+
+
+@bounded("C03.gene_joiner", ["C03", "C04"], note="the real TranscriptToGeneJoiner on random loci (1-2 reference genes with ids of several "
+         "shapes - upper case, lower case, previously generated novel_gene ids - and 1-4 overlapping novel models): every transcript "
+         "reported under a reference id keeps its reference gene; no model is lost")
+def c03_joiner(tier, rng):
+    n = 600 if tier == "quick" else 30000
+    base = rng.randrange(10 ** 9)
+    for k in range(n):
+        try:
+            p = _joiner_case(base + k)
+        except AssertionError:
+            continue
+        except Exception as e:
+            p = ["exception %s: %s" % (type(e).__name__, e)]
+        if p:
+            return {"cases": k + 1, "bound": "%d loci" % n, "violations": [{
+                "obligation": "C03.gene_joiner", "inputs": {"seed": base + k}, "observed": p[:3],
+                "required": "reference transcripts keep their reference gene", "replay_call": "contracts.c_models:replay_joiner"}]}
+    return {"cases": n, "bound": "%d random loci" % n, "violations": [], "samples": [{"seed": base}]}
